@@ -156,6 +156,18 @@ def _analyse_fn(repo: Repo, fi: FuncInfo, acc: Access, self_types):
                     acc.w(bt, n.attr, fi.at(n))
                 else:
                     acc.r(bt, n.attr, fi.at(n))
+        # getattr(x, v) under `v in ("f", "g", ..)`: reads exactly those fields
+        if isinstance(n, ast.Call) and isinstance(n.func, ast.Name) and n.func.id == "getattr" and len(n.args) >= 2 and isinstance(n.args[1], ast.Name):
+            from .shared import path_conditions
+
+            for t, pol in path_conditions(fi.node, n):
+                if pol and isinstance(t, ast.Compare) and len(t.ops) == 1 and isinstance(t.ops[0], ast.In) and isinstance(t.left, ast.Name) and t.left.id == n.args[1].id and isinstance(t.comparators[0], (ast.Tuple, ast.List, ast.Set)):
+                    names = [au.str_const(x) for x in t.comparators[0].elts]
+                    if all(x is not None for x in names):
+                        for bt in type_of(n.args[0]):
+                            for nm in names:
+                                if nm in SCHEMA.get(bt, {}):
+                                    acc.r(bt, nm, fi.at(n))
         # WhichOneof arms: `x.WhichOneof("grp") == "arm"` or `ptype == "arm"` after `ptype = x.WhichOneof("grp")`
     which: Dict[str, str] = {}
     for n in au.walk_no_nested(fi.node):
@@ -173,3 +185,13 @@ def _analyse_fn(repo: Repo, fi: FuncInfo, acc: Access, self_types):
                 grp = au.str_const(n.left.args[0])
             if grp:
                 acc.oneof_arms.setdefault(grp, set()).add(lit)
+        # membership form: `ptype in ("a", "b")`
+        if isinstance(n, ast.Compare) and len(n.ops) == 1 and isinstance(n.ops[0], ast.In) and isinstance(n.comparators[0], (ast.Tuple, ast.List, ast.Set)):
+            names = [au.str_const(x) for x in n.comparators[0].elts]
+            grp = None
+            if isinstance(n.left, ast.Name) and n.left.id in which:
+                grp = which[n.left.id]
+            if isinstance(n.left, ast.Call) and isinstance(n.left.func, ast.Attribute) and n.left.func.attr == "WhichOneof" and n.left.args:
+                grp = au.str_const(n.left.args[0])
+            if grp and names and all(x is not None for x in names):
+                acc.oneof_arms.setdefault(grp, set()).update(names)
